@@ -86,6 +86,7 @@ type checkOpts struct {
 	prop    string
 	tier    string
 	only    string
+	caseFilter string
 	seed    int
 	verbose bool
 }
@@ -119,6 +120,15 @@ func runCheck(eng *Engine, o checkOpts, t0 time.Time) int {
 	var unsupported []string
 	for _, c := range cts {
 		rs := eng.Verify(c)
+		if o.caseFilter != "" {
+			var keep []*Result
+			for _, r := range rs {
+				if strings.Contains(r.Case, o.caseFilter) {
+					keep = append(keep, r)
+				}
+			}
+			rs = keep
+		}
 		for _, r := range rs {
 			if r.Unsupported != "" {
 				unsupported = append(unsupported, fmt.Sprintf("%s%s: %s", c.Name, r.Case, r.Unsupported))
